@@ -415,8 +415,8 @@ def run(ck):
     #     a fetcher parked at hls.segment.get holds the read lock, the writer must wait for it; the writer parked at
     #     hls.segment.listed has just listed a segment, which must already be complete in the store
     lc = []
-    for shape, k in (("hold", 20), ("listed", 20), ("quick", 6), ("random", 24)):
-        for _ in range(k * (8 if big else 1)):
+    for shape, k in (("hold", 12), ("listed", 12), ("quick", 4), ("random", 14)):
+        for _ in range(k * (12 if big else 1)):
             lc.append(lts_case(rng, rng.random() < 0.5, shape))
     ck.stream("fetch-rollover-schedules", lc, "C10_lts_run", "C10_lts", "C10_lts_ok",
               nontrivial=lambda c: any(l[0] == 1 for l in c[2]) and any(l[0] == 2 for l in c[2]),
